@@ -1,16 +1,27 @@
-/-! # C15 model — selectors, `Filter`, include/exclude trees and `GroupBy`
+/-! # C15 model — selectors, `Filter`, `RunIf`, include/exclude trees, `GroupBy` and `_GroupBy`
 
 Transcription of
 * `lena/flow/selectors.py`: `Selector.__init__` (dispatch on the type of the specification),
   `Selector.__call__` (error absorption), `And/Or/Not.__call__`, `SelectContext.__call__`;
-* `lena/flow/filter.py`: `Filter.__init__`, `Filter.run`, `Filter.fill_into`;
-* `lena/context/functions.py`: `contains`, `get_recursively` (string / list keys);
+* `lena/flow/filter.py`: `Filter.__init__`, `Filter.run`, `Filter.fill_into`; two `Filter`s in a
+  `Sequence` (`filterSeqRun`: the lazy value-by-value order of nested generators);
+* `lena/flow/elements.py`: `RunIf.__init__`, `RunIf.run`;
+* `lena/context/functions.py`: `contains`, `get_recursively` without default — string, list and
+  dictionary keys, with its `LenaValueError` / `LenaTypeError` for malformed keys;
 * `lena/flow/functions.py`: `get_context`, `get_data`;
-* `lena/context/include_exclude_tree.py`: `_split_key`, `_group_by_starting_prefixes`,
+* `lena/context/include_exclude_tree.py`: `_split_key`, `_startswith`, `_group_by_starting_prefixes`,
   `_make_include_exclude_tree`, `make_include_exclude_tree`, `IncludeExcludeTree.get`,
   `IncludeExcludeTree._get_from_subtree` (as repaired by commit 0d389ed);
   (`contains` as of commit e5c725f, `SelectContext` as of 6df7ab0 and 0b5fd4d);
-* `lena/flow/group_by.py`: `GroupBy.__init__`, `fill`, `compute`, `reset`.
+* `lena/flow/group_by.py`: `GroupBy.__init__` (also for arguments that are no strings or containers),
+  `fill` (with the `LenaValueError` of `to_string` for an unserialisable object in the selected part),
+  `compute`, `reset`, `clear`, `update`; the deprecated `_GroupBy` for callables and tuples of callables
+  (`__init__`, `fill`, `reset`, `clear`, `update`).
+
+Not modelled (see DESIGN.md): `__eq__`/`__repr__` of the selector classes, `Filter`, `GroupBy`,
+`IncludeExcludeTree`; `_GroupBy` with a formatting string (`format_context` belongs to C08); `get_recursively`
+with a default or a first argument that is no dictionary (not reachable from `SelectContext`); `str()` of a
+context value raising inside `contains`; items of a `group_by` tuple that are no strings.
 
 A dictionary is a slot vector over the key alphabet `names` of the case (DESIGN.md section 2):
 slot `i` holds the binding of the key `names[i]`, `none` = key absent.  The value type of this
